@@ -26,6 +26,12 @@ SetupFail == <<"setupfail", "probe">>
 EnvPwd  == <<"env", "envpwd", "gate", "childenv", "probe">>
 BgWriter == <<"defer", "bgwriter", "gate", "fail", "probe">>
 DupBg   == <<"defer", "bgdup", "probe">>
+LinkOut == <<"linkout", "gate", "defer", "probe">>
+LinkFail == <<"linkout", "bg", "gate", "fail", "probe">>
+ToolHere == <<"tooldef", "gate", "condslash", "probe">>
+ToolAbsent == <<"gate", "condslash", "probe">>
+TFail   == <<"defer", "bg", "gate", "tfail", "probe">>
+TSkip   == <<"bg", "defer", "gate", "bg", "tskip", "probe">>
 
 MCBatches == {
   B(<<Sc("p1", Plain), Sc("p2", Probe2)>>, FALSE),
@@ -46,6 +52,10 @@ MCBatches == {
   B(<<Sc("e1", EnvPwd), Sc("p1", Plain)>>, FALSE),
   B(<<Sc("v1", BgWriter), Sc("v2", BgWriter)>>, FALSE),
   B(<<Sc("q1", DupBg), Sc("d1", Defers)>>, FALSE),
+  B(<<Sc("k1", TFail), Sc("k2", TSkip)>>, FALSE),
+  B(<<Sc("l1", LinkOut), Sc("l2", LinkFail)>>, FALSE),
+  B(<<Sc("h1", ToolHere), Sc("h2", ToolAbsent)>>, FALSE),
+  B(<<Sc("h2", ToolAbsent), Sc("h1", ToolHere)>>, FALSE),
   B(<<ScF("u1", Short, "a/foo#1"), ScF("u2", Short, "b/foo"), ScF("u3", Short, "c/foo")>>, FALSE),
   B(<<ScF("u1", Short, "a/foo"), ScF("u2", Short, "b/foo#1"), ScF("u3", Short, "c/foo")>>, FALSE)
 }
